@@ -19,11 +19,12 @@ CLAIMS = {
                 "library's own extract_format on every case.",
     },
     "C08": {
-        "text": "Theorems over the Fetch and Vars models (13): for ALL masters/sources/env/canon every definition of a diff has a canonical text different from its master's, no scope of a diff is "
+        "text": "Theorems over the Fetch and Vars models (17): for ALL masters/sources/env/canon every definition of a diff has a canonical text different from its master's, no scope of a diff is "
                 "empty, nothing undeclared appears (C08_only_differences); on D08 (D07 + unique names + no .multiple scope, under H_self) the diff, the restore (kept values identical, "
                 "dropped values back as the master's own with the same canon, multiple blocks unchanged in order), diff-of-restored = diff and empty diff of defaults are characterised "
-                "block-wise. F7c refuted by witness (a further master occurrence reorders the restore). Unresolved $variables stay textual: the text written for such a reference ($name, or $(name) "
-                "where the bare form would read differently; /repo cef4de5 + 9ff1177) re-reads as the same reference whatever follows it (6 theorems over the scanner model, all names, all following texts). PARTIAL: .multiple scopes, text forms and non-raising of later runs by stream only.",
+                "block-wise. F7c refuted by witness (a further master occurrence reorders the restore). With .multiple scopes (any nesting, D07 + unique names): working blocks, the diff (partial instances keyed by "
+                "their text; under the named oracle hypothesis partial_texts_ok, shown necessary) and the empty diff of the defaults. Unresolved $variables stay textual: the text written for such a reference ($name, or $(name) "
+                "where the bare form would read differently; /repo cef4de5 + 9ff1177) re-reads as the same reference whatever follows it (6 theorems over the scanner model, all names, all following texts). PARTIAL: restore / diff-of-restored for .multiple scopes, text forms and non-raising of later runs by stream only.",
         "note": "Trusted as C07.",
     },
     "C09": {
@@ -146,9 +147,9 @@ CLAIMS = {
     "C01": {
         "text": "Theorems (closed under the global context): for EVERY text the parser model accepts that has no deprecated definition and no include line, parse -> print at attributes "
                 "level 0 (any width) -> parse gives the same names, nesting, order, disabled marks, merge flags, word texts and quote styles, and the second print is byte-identical "
-                "(C01_parse_print_parse_level0 via C01_parsed_trees_in_domain + C01_tree_level0 + C01_text_fixpoint_level0); level 3 for trees whose attributes are the bool/int ones; "
+                "(C01_parse_print_parse_level0 via C01_parsed_trees_in_domain + C01_tree_level0 + C01_text_fixpoint_level0); level 3 for trees whose attributes are the bool/int ones, levels 3 and 2 also for string-valued attributes with any characters that fit on their printed line (not re-flowed); "
                 "value words of a definition survive print -> parse at every width (continuation backslashes incl.); quoted words read back exactly; the parser never yields a lone "
-                "backslash word. PARTIAL: string-valued attributes (wrapped help), .type/.call, levels 1/2 views and deprecated definitions are decided on every run by running parse -> "
+                "backslash word. PARTIAL: re-flowed (wrapped) attribute texts, .type/.call, the level 1 view and deprecated definitions are decided on every run by running parse -> "
                 "print -> parse -> print in freephil and in the extracted parser/printer model on rich generated documents and by the oracle comparing the trees under the level's view.",
         "note": "Trusted: Coq kernel, extraction, driver, harness, hand-written models of tokenizer.py, parser.py, the printer in common.py, str(converter); textwrap.wrap "
                 "modelled for the options the code passes; float converters carried as printed text.",
@@ -158,8 +159,10 @@ CLAIMS = {
                 "the pruned tree without filter (side condition wf_show, which every parsed document with numeric expert levels satisfies: C19_parsed_trees_are_wf); a negative level "
                 "shows everything; attributes level 0 prints no attribute, visibility is monotone in the level, level 1 shows only help/alias, level 2 only set attributes; a prefix without "
                 "newline is prepended to every printer line and changes nothing else; the filtered text parses to exactly the allowed sub-tree at level 0 (every tree of the parser's "
-                "shape, no hypothesis on the levels) and at level 3 (bool/int attributes); the trees re-parsed from levels 0 and 3 agree once attributes are ignored. PARTIAL: levels 1/2 "
-                "and string-valued / .type / .call attributes in the re-parse clauses are decided by correspondence (text byte for byte) + oracle on every run.",
+                "shape, no hypothesis on the levels) and at every attributes level >= 1 on the domain stree_ok (bool/int attributes, and string-valued help/caption/short_caption/style/alias "
+                "with any characters that fit on their printed line): the re-parsed tree carries exactly the attributes visible at that level; the trees re-parsed from any two levels >= 0 agree once "
+                "attributes are ignored (22 theorems). PARTIAL: re-flowed (wrapped) texts, .type / .call / Auto-valued attributes, deprecated definitions and dotted names at levels >= 1 in the re-parse "
+                "clauses are decided by correspondence (text byte for byte) + oracle on every run.",
         "note": "Trusted as C01. The oracle's view() is the property text made executable.",
     },
     "C02": {
